@@ -10,6 +10,158 @@ from checks import conn_common as cc
 from harness.common import main, MachineryError
 
 
+def _sum(b):
+    return sum((i % 251 + 1) * x for i, x in enumerate(b)) % 1000003
+
+
+def realnet_flush(chk, quick):
+    """C07 on kernel sockets: REAL proxy processes in the three execution modes; the origin (or the proxy's own web server)
+    produces output and ends the connection; the client keeps reading at its own pace (fast / slow / starting late)."""
+    import gzip
+    import os
+    import shutil
+    import socket
+    import tempfile
+    import threading
+    import time
+    from harness import realnet, tlc
+    import random
+    big = random.Random(5).randbytes((1 << 20) * (2 if quick else 6))      # incompressible: the static server's gzip does not shrink it
+
+    def origin_beh(kind):
+        def beh(idx, got):
+            if b'\r\n\r\n' not in got or getattr(beh, 'done_%d' % idx, False):
+                return None
+            setattr(beh, 'done_%d' % idx, True)
+            return 'close-after:' + kind
+        return beh
+
+    class SendAndClose(realnet.Origin):
+        """Sends the configured output after the first complete request head, then closes."""
+        def __init__(self, output):
+            self.output = output
+            super().__init__(b'F', behaviour=None)
+
+        def _serve(self, c, rec, idx):
+            try:
+                c.settimeout(10)
+                buf = b''
+                while b'\r\n\r\n' not in buf:
+                    d = c.recv(65536)
+                    if not d:
+                        return
+                    buf += d
+                rec['got'] += buf
+                c.sendall(self.output)
+            except Exception as e:     # noqa
+                rec['err'] = repr(e)[:100]
+            finally:
+                c.close()
+
+    outputs = {
+        'close-delimited': b'HTTP/1.0 200 OK\r\nConnection: close\r\nX-Origin: F\r\n\r\n' + big,
+        'content-length': b'HTTP/1.1 200 OK\r\nContent-Length: %d\r\nConnection: close\r\n\r\n' % len(big) + big,
+        'tunnel': big[:len(big) // 2],
+    }
+    origins = {k: SendAndClose(v) for k, v in outputs.items()}
+    static_dir = tempfile.mkdtemp(prefix='c07-static-')
+    open(os.path.join(static_dir, 'big.bin'), 'wb').write(big)
+    paces = [('fast', 0, 0.0), ('slow', 0, 0.004), ('late', 1.0, 0.0)] if quick else [('fast', 0, 0.0), ('slow', 0, 0.004), ('very slow', 0, 0.02), ('late', 1.5, 0.001)]
+    cases, descs = [], {}
+
+    def client(port, first, pace):
+        name, delay, nap = pace
+        s = socket.create_connection(('127.0.0.1', port), timeout=10)
+        s.setsockopt(socket.SOL_SOCKET, socket.SO_RCVBUF, 65536)
+        got, eof, tlast, teof = bytearray(), False, None, None
+        try:
+            s.sendall(first)
+            if first.startswith(b'CONNECT'):
+                head = b''
+                while b'\r\n\r\n' not in head:
+                    d = s.recv(1)
+                    if not d:
+                        break
+                    head += d
+                s.sendall(b'hello origin\r\n\r\n')
+            time.sleep(delay)
+            s.settimeout(20)
+            while True:
+                try:
+                    d = s.recv(32768)
+                except (socket.timeout, OSError):
+                    break
+                if not d:
+                    eof, teof = True, time.time()
+                    break
+                got += d
+                tlast = time.time()
+                if nap:
+                    time.sleep(nap)
+        finally:
+            s.close()
+        wait_ms = int(((teof or time.time()) - (tlast or time.time())) * 1000)
+        return bytes(got), eof, wait_ms
+    try:
+        for mode in ('threaded', 'local', 'remote'):
+            px = realnet.ProxyProc(mode, extra=['--enable-web-server', '--enable-static-server', '--static-server-dir', static_dir, '--timeout', '30'])
+            try:
+                jobs = []
+                for pace in paces:
+                    for kind in ('close-delimited', 'content-length'):
+                        o = origins[kind]
+                        jobs.append((kind, pace, b'GET http://127.0.0.1:%d/x HTTP/1.1\r\nHost: 127.0.0.1:%d\r\n\r\n' % (o.port, o.port), outputs[kind], None))
+                    o = origins['tunnel']
+                    jobs.append(('tunnel', pace, b'CONNECT 127.0.0.1:%d HTTP/1.1\r\nHost: 127.0.0.1:%d\r\n\r\n' % (o.port, o.port), outputs['tunnel'], None))
+                    jobs.append(('static file', pace, b'GET /big.bin HTTP/1.1\r\nHost: w\r\n\r\n', None, big))
+                results = {}
+
+                def work(n, job):
+                    results[n] = client(px.port, job[2], job[1])
+                ths = [threading.Thread(target=work, args=(n, j)) for n, j in enumerate(jobs)]
+                for k in range(0, len(ths), 4):         # four clients at a time
+                    for t in ths[k:k + 4]:
+                        t.start()
+                    for t in ths[k:k + 4]:
+                        t.join(120)
+                for n, (kind, pace, _first, exp_raw, exp_body) in enumerate(jobs):
+                    got, eof, wait_ms = results.get(n, (b'', False, 0))
+                    if exp_raw is not None:
+                        exp, obs = exp_raw, got
+                    else:           # proxy-made response: the body (after undoing the advertised content-encoding) is what is owed
+                        head, _sep, body = got.partition(b'\r\n\r\n')
+                        if b'content-encoding: gzip' in head.lower():
+                            try:
+                                body = gzip.decompress(body)
+                            except Exception:     # noqa: truncated or damaged stream: what arrived stays as it is
+                                pass
+                        exp, obs = exp_body, body
+                    cid = len(cases) + 1
+                    cases.append({'id': cid, 'explen': len(exp), 'expsum': _sum(exp), 'gotlen': len(obs), 'gotsum': _sum(obs), 'eof': eof,
+                                  'wait_ms': wait_ms, 'limit_ms': 5000})
+                    descs[cid] = {'mode': mode, 'output': kind, 'client': pace[0], 'bytes_expected': len(exp), 'bytes_received': len(obs), 'eof': eof,
+                                  'close_after_last_byte_ms': wait_ms}
+            finally:
+                px.stop()
+    finally:
+        for o in origins.values():
+            o.stop()
+        shutil.rmtree(static_dir, ignore_errors=True)
+    results, rej = tlc.run_sharded('TraceFlush', 'TraceFlush.cfg', cases, shards=4, timeout=300)
+    m = tlc.Merged(results)
+    chk.add_tlc('TraceFlush (%d real transfers: 3 modes x outputs x client paces)' % len(cases), m)
+    if m.status == 'failed':
+        raise MachineryError('TraceFlush: ' + m.brief())
+    chk.traces(len(cases))
+    for cid, clause in rej:
+        d = descs[cid]
+        chk.violation({'part': 'realnet', 'clause': clause.split(' (')[0][:60] if 'received' not in clause else 'C07 output not delivered completely', 'mode': d['mode'], 'output': d['output']},
+                      'kernel sockets, %s mode, %s, %s client: %s' % (d['mode'], d['output'], d['client'], clause), d)
+    chk.cov['realnet_transfers'] = len(cases)
+    if cases:
+        chk.sample({'part': 'kernel sockets', 'case': descs[1]})
+
+
 def run(chk):
     quick = chk.tier == 'quick'
     seed = chk.seed
@@ -81,10 +233,11 @@ def run(chk):
             chk.sample({'scenario': info['scen'], 'unit_bytes': info['U'], 'pieces': info['pieces'], 'schedule': info['schedule'],
                         'events': len(tr['ev']), 'last_events': tr['ev'][-8:]})
     chk.cov['model_drift_runs'] = drift_total
+    realnet_flush(chk, quick)
     chk.assume('peers act between loop iterations only (reduction argument, DESIGN.md 2.3)',
                'SimNet socket semantics stand for the kernel; a close() with unread input is not modelled as a reset',
                'promptness bound: the close must come within 2 loop iterations after the output is out',
-               'threaded mode (run() + _flush()) is exercised by the mode-equivalence check C17, not here')
+               'kernel-socket part: loopback TCP, the origin closes right after its last byte; promptness bound 5 s (a loaded machine)')
 
 
 if __name__ == '__main__':
